@@ -5,6 +5,7 @@ mod cancel;
 mod fsmodel;
 mod kutil;
 mod lifecycle;
+mod opsmix;
 mod smoke;
 mod streams;
 mod timers;
@@ -28,6 +29,7 @@ fn main() {
     scenarios.extend(cancel::scenarios());
     scenarios.extend(fsmodel::scenarios());
     scenarios.extend(lifecycle::scenarios());
+    scenarios.extend(opsmix::scenarios());
     scenarios.extend(streams::scenarios());
     scenarios.extend(timers::scenarios());
     simcore::worker::main(&scenarios)
